@@ -39,7 +39,7 @@ func TestConcurrentRequestsAreDecidedOnTheirOwn(t *testing.T) {
 				Execute: []config.MechanismConfig{{"authenticator": "anon"}, {"authorizer": "allow", "if": `Request.Header("X-Pad") != "never"`},
 					{"authorizer": "deny", "if": `Request.Header("X-Who") == "alice" && Subject.ID == "anonymous"`}, {"finalizer": "hdr"}}},
 			{ID: "by-capture", Matcher: rulecfg.Matcher{Routes: []rulecfg.Route{{Path: "/c/:who"}}}, Backend: &rulecfg.Backend{Host: upstream.Host()},
-				Execute: []config.MechanismConfig{{"authenticator": "anon"}, {"authorizer": "deny", "if": `Request.URL.Captures.who == "alice"`}, {"finalizer": "hdr", "if": `Subject.ID != ""`}},
+				Execute:      []config.MechanismConfig{{"authenticator": "anon"}, {"authorizer": "deny", "if": `Request.URL.Captures.who == "alice"`}, {"finalizer": "hdr", "if": `Subject.ID != ""`}},
 				ErrorHandler: []config.MechanismConfig{{"error_handler": "redir", "if": `Request.URL.Captures.who == "bob"`}}},
 		}
 
